@@ -94,7 +94,37 @@ def _c14_runs(tier, seed, replay):
         return [["configs", "--seed", S(seed, i), "--n", "40", "--maxops", "25"] for i in range(1, 4)] + [["backends", "--seed", S(seed, 9), "--n", "300"]]
     return [["configs", "--seed", S(seed, 10 + i), "--n", "250", "--maxops", "30"] for i in range(12)] + [["backends", "--seed", S(seed, 40 + i), "--n", "2000"] for i in range(2)]
 
+def _c10_runs(tier, seed, replay):
+    if tier == "quick":
+        return [["faults", "--seed", S(seed, i), "--n", "50", "--maxops", "9"] for i in range(1, 5)]
+    return [["faults", "--seed", S(seed, 10 + i), "--n", "400", "--maxops", "12"] for i in range(12)]
+
+def _c05_runs(tier, seed, replay):
+    if tier == "quick":
+        return [["tree", "--seed", S(seed, i), "--n", "36", "--maxlen", str(m)] for i, m in [(1, 35), (2, 70), (3, 70), (4, 140)]]
+    return ([["tree", "--seed", S(seed, 10 + i), "--n", "90", "--maxlen", "80"] for i in range(8)]
+            + [["tree", "--seed", S(seed, 30 + i), "--n", "12", "--maxlen", str(m)] for i, m in enumerate([300, 600, 1100, 2100])])
+
 PROPS = {
+    "C05": dict(
+        theorems=["HC.C05.nodes_eq_ref", "HC.C05.batch_roots", "HC.C05.roots_determined", "HC.C05.commit_keeps", "HC.C05.treeOK_empty",
+                  "HC.C05.batch_independent", "HC.C05.root_hash_and_signature", "HC.C05.signature_verifies"],
+        bridge_modules=["HC.Bridge.Stores"], bridging=["HC.Bridge.Stores.hash_scheme", "HC.Bridge.Stores.tree_nodes"],
+        runs=_c05_runs,
+        partial="proved for every crypto record, block list and split into appends: created nodes = reference nodes, roots = reference roots, root hash and signature as prescribed. Reopen (roots reloaded from the tree store) and 'proofs carry persisted nodes' are validated by the run, which compares the crate with the Lean reference AND with a third reference in the harness (blake2 / ed25519-dalek called directly).",
+        rule="block sequences with every length 0..max (root sets of every shape), sizes 0..5 KiB or fixed 3-byte blocks, any mix of single and batch appends and reopen steps; after flushes and at the end: every non-zero record of the tree store is compared with the reference node at that index, the roots of an upgrade proof 0..len and the nodes of sampled block proofs with the reference, the served signature is verified with ed25519-dalek over namespace|tree hash|length|fork; the Lean side recomputes the whole reference tree with its own BLAKE2b/Ed25519 and must agree digest-for-digest",
+        trusted=LOG_TRUSTED + ["type bytes and namespace come from the source through bridging lemmas; Crypto.real is checked against RFC 7693/8032 vectors by agreement with blake2/ed25519-dalek on every hash and signature of every run"],
+        assumptions=["signature_verifies assumes verify (publicKey seed) m (sign seed m) for the crypto record"],
+    ),
+    "C10": dict(
+        theorems=["HC.C10.fault_is_crash", "HC.C10.fault_prefix_step", "HC.C10.fault_before_any", "HC.C10.no_fault_complete",
+                  "HC.C02.reopen_exact", "HC.C02.flush_atomic"],
+        bridge_modules=["HC.Bridge.Oplog"], bridging=OPLOG_BRIDGE,
+        runs=_c10_runs,
+        partial="the reduction 'fault at k = crash before k' is proved on the model's journals and inherits C02's protocol theorems; that the Rust stops at the failing operation and maps the error (glue) is checked by injecting one error at every storage operation of every call",
+        rule="for every call of every history (appends, batches, clears, make_read_only, reads, reopen) and every index k of a storage operation it issues (write, delete, truncate, read, length query): the history prefix is replayed on a fresh instance, operation k fails with an I/O error; the call must return an error (not ok, no panic, no hang); drop + reopen must show exactly the state of the crash point with the same number of completed mutating operations (those crash states are compared with the Lean model and with the before/after oracle)",
+        trusted=LOG_TRUSTED,
+    ),
     "C14": dict(
         theorems=["HC.C14.file_laws", "HC.C14.backend_indep", "HC.C14.cache_transparent", "HC.C14.cache_fill_ok"],
         bridge_modules=["HC.Bridge.Stores"], bridging=STORES_BRIDGE,
